@@ -57,6 +57,13 @@ CLAIMED = {
          "symbolic inside a 2^6 (quick) / 2^8 (thorough) window placed at 0, around 2^32, around 2^63 and just below 2^64-1; K<=2-3 quick, 3-4 thorough.",
          "libstdc++'s vector reallocation path is trapped (proved unreachable after reserve) for add/remove/query; Zwerg-level words of builtin-aset.cc "
          "and the textual rendering are outside this check.", '6/C16'),
+ 'C20': ("Kernel only (clause: named constants have the value/name the headers define): for each of 17 constant families (DW_TAG, DW_AT, DW_FORM, "
+         "DW_LANG, DW_INL, DW_ATE, DW_ACCESS, DW_VIS, DW_VIRTUALITY, DW_ID, DW_CC, DW_ORD, DW_DSC, DW_DS, DW_OP, DW_END, DW_DEFAULTED) the "
+         "stringer of dwcst.cc (its tables regenerated through known-dwarf.awk at check time) returns, for EVERY int code, a name exactly when "
+         "/usr/include/dwarf.h (parsed independently by the check) defines that code in the family, the name is the header's, the brief form is "
+         "the name without the family prefix, and no undefined code is rendered as a known name.",
+         "NOT covered: reading names back as words (vocabulary map, lexer), radix rendering of integers and %d %x %o %b, the CLI's quoted "
+         "string rendering (dump_charp), ELF constant families (DESIGN 0.4).", '0.3'),
 }
 
 NA = {
@@ -71,7 +78,6 @@ NA = {
  'C17': "needs the libdw contract model (location lists, abbreviations); not reached (DESIGN 7)",
  'C18': "needs the libdwfl module/symbol model; the per-machine domain logic is covered under C09 only",
  'C19': "main() of the CLI is a 400-line monolith behind getopt/iostream/file I/O; the observables are the effects of those externals (DESIGN 7)",
- 'C20': "needs an ostream byte-sink model (width/fill/basefield) for dump_charp and the dwcst stringers; not reached in time (DESIGN 7)",
 }
 
 def main():
